@@ -208,7 +208,11 @@ func (r *runner) mismatch(m Mismatch) bool {
 // replayLine dispatches a stored request line to its stream.
 func (r *runner) replayLine(id, line string) {
 	switch {
-	case strings.HasPrefix(line, "P "), strings.HasPrefix(line, "W "):
+	case strings.HasPrefix(line, "P "), strings.HasPrefix(line, "W "), strings.HasPrefix(line, "E "):
+		edit := false
+		if strings.HasPrefix(line, "E ") {
+			edit, line = true, strings.TrimPrefix(line, "E ")
+		}
 		warm := ""
 		if f := strings.SplitN(line, " ", 3); f[0] == "W" && len(f) == 3 {
 			warm, line = f[1], f[2]
@@ -219,6 +223,7 @@ func (r *runner) replayLine(id, line string) {
 			return
 		}
 		p.WarmArch = warm
+		p.WarmEdit = edit
 		r.onePolicy(id, p, true)
 	case strings.HasPrefix(line, "B "):
 		goReply, _ := vd.ReplayBuilder(line)
@@ -256,6 +261,10 @@ func (r *runner) onePolicy(id string, p *vd.Policy, forceOracle bool) bool {
 	if p.WarmArch != "" {
 		shown = "W " + p.WarmArch + " " + req
 		r.tag("history:assembled-for-another-arch-first")
+	}
+	if p.WarmEdit {
+		shown = "E " + shown
+		r.tag("history:assembled-then-edited-inside-a-group")
 	}
 	// features
 	nconds, nlists, nnames := 0, 0, 0
@@ -397,6 +406,9 @@ func (r *runner) onePolicy(id string, p *vd.Policy, forceOracle bool) bool {
 		if p.WarmArch != "" {
 			m.Note = "history: the same Policy value was assembled for " + p.WarmArch + " before (result discarded)"
 		}
+		if p.WarmEdit {
+			m.Note += " history: the same Policy value was assembled and dumped before with the middle group's last name missing and another action, then edited in place"
+		}
 		if ok {
 			m.Oracle, _ = r.model.Ask("X " + p.Arch + " " + p.Endian + " " + p.Body() + " " + strings.TrimPrefix(goReply, "OK "))
 			r.sum.OracleRuns++
@@ -483,6 +495,10 @@ func (r *runner) policyStream(rng *rand.Rand) error {
 		if (*profile == "defects" || *profile == "mix" || *profile == "names") && rng.Intn(6) == 0 {
 			// a policy value that has been assembled for another architecture before
 			p.WarmArch = vd.TableArches[rng.Intn(len(vd.TableArches))]
+		}
+		if (*profile == "defects" || *profile == "mix" || *profile == "names" || *profile == "conds") && rng.Intn(6) == 0 {
+			// a policy value that was assembled before and then edited inside one of its groups
+			p.WarmEdit = true
 		}
 		if r.onePolicy(fmt.Sprintf("%s#%d", *profile, i), p, false) {
 			break
